@@ -692,6 +692,11 @@ func genHistory(r *hx.Rand) []*big.Int {
 	}
 	// a healthy tail: the runtime object readable, a full synchronisation falls due, then quiet rounds
 	recs = append(recs, []int{9, 1}, []int{7, 8000}, []int{4, 0})
+	if r.Chance(1, 2) {
+		// once more the vSwitch reports that it has run out of addresses while a new pod waits: the controller stops asking
+		// (the vSwitch is blocked in its cache) and has to come back by itself when the block expires (10 minutes)
+		recs = append(recs, []int{1, npods + 1, (npods+1)*10 + 1, 0, 0, 0}, []int{4, 3, 1, 3, 3, 3, 4, 3})
+	}
 	for i := 0; i < 10; i++ {
 		recs = append(recs, []int{7, 130}, []int{4, 0})
 	}
